@@ -75,12 +75,15 @@ def battery(rng, tier):
             rng.shuffle(ops)
             out.append(Case("shared-object", "det.shared", [base, json.dumps(ops)]))
         sops = []
+        V = gen.rand_v(rng, local_p=0.2)
+        eqs = [V, gen.V(V.epoch, V.release + (0,), V.pre, V.post, V.dev, V.local), gen.V(V.epoch, V.release + (0, 0), V.pre, V.post, V.dev, V.local)]
+        def cand(): return gen.spell(rng, rng.choice(eqs + gen.neighbours(rng, V)[:4]), ws=False, vprefix=False)
         for _ in range(rng.randrange(2, 7)):
-            k = rng.choice(["contains", "in", "filter", "filter", "str", "hash", "pre", "eq"])
-            if k in ("contains", "in"): sops.append([k, gen.spell(rng, gen.rand_v(rng), ws=False)])
-            elif k == "filter": sops.append([k, [gen.spell(rng, rng.choice(gen.neighbours(rng, gen.rand_v(rng))), ws=False) for _ in range(rng.randrange(0, 4))]])
+            k = rng.choice(["contains", "contains", "in", "filter", "filter", "str", "hash", "pre", "eq"])
+            if k in ("contains", "in"): sops.append([k, cand()])
+            elif k == "filter": sops.append([k, [cand() for _ in range(rng.randrange(0, 4))]])
             else: sops.append([k])
-        sbase = gen_spec.spec_string(rng, op=rng.choice(gen_spec.OPS[:7]))[0]
+        sbase = gen_spec.spec_string(rng, op=rng.choice(gen_spec.OPS + ["==="]), v=V)[0]
         for _ in range(3):
             rng.shuffle(sops)
             out.append(Case("shared-object", "det.shared.spec", [sbase, json.dumps(sops)]))
